@@ -16,7 +16,7 @@ struct PairsRun {
     PairsRun(RunEnv& e, const Plan& p) : env(e), w(e), R(*e.rep), view(e.view), plan(p) {
         for (size_t i = 0; i < NP; i++) { g1.emplace_back(R.sz(JV_SZ_G1A)); g2.emplace_back(R.sz(JV_SZ_G2A)); prep.emplace_back(R.sz(JV_SZ_G2P), 0xEE); prep_src.emplace_back(R.sz(JV_SZ_G2A)); prep_set.push_back(false);
             R.jv_const_get(JV_EK_G1A, i % 2, g1[i]); R.jv_const_get(JV_EK_G2A, (i + 1) % 2, g2[i]); }
-        arec.alloc(NR * R.sz(JV_SZ_APAIR), 0xEE); prec.alloc(NR * R.sz(JV_SZ_PPAIR), 0xEE);
+        arec.alloc(NR * R.jv_pair_size(view, 0), 0xEE); prec.alloc(NR * R.jv_pair_size(view, 1), 0xEE);   // exact-size arrays of the record type the caller of this view declares
         for (size_t i = 0; i < NR; i++) a_g1[i] = a_g2[i] = p_g1[i] = p_pr[i] = -1;
     }
     std::string gc(const GTv& v) { return w.ct(v); }
@@ -44,10 +44,10 @@ struct PairsRun {
         env.check((R.jv_g2prepared_is_zero(view, prep[pi]) != 0) == is_inf2(g2[gi]), "C08", "prepare:is_zero", "g2prepared_is_zero disagrees with the point prepared");
         env.logf("PREP %zu from %zu", pi, gi);
     }
-    void op_arec(const Op& op) { size_t s = (size_t) op.arg(0) % NR; a_g1[s] = (int) ((size_t) op.arg(1) % NP); a_g2[s] = (int) ((size_t) op.arg(2) % NP); R.jv_apair_set(arec, s, g1[(size_t) a_g1[s]], g2[(size_t) a_g2[s]]); env.count("op:affine_record_pointed"); }
+    void op_arec(const Op& op) { size_t s = (size_t) op.arg(0) % NR; a_g1[s] = (int) ((size_t) op.arg(1) % NP); a_g2[s] = (int) ((size_t) op.arg(2) % NP); R.jv_apair_set(view, arec, s, g1[(size_t) a_g1[s]], g2[(size_t) a_g2[s]]); env.count("op:affine_record_pointed"); }
     void op_prec(const Op& op) {
         size_t s = (size_t) op.arg(0) % NR; size_t pi = (size_t) op.arg(2) % NP; if (!prep_set[pi]) return;
-        p_g1[s] = (int) ((size_t) op.arg(1) % NP); p_pr[s] = (int) pi; R.jv_ppair_set(prec, s, g1[(size_t) p_g1[s]], prep[pi]); env.count("op:prepared_record_pointed");
+        p_g1[s] = (int) ((size_t) op.arg(1) % NP); p_pr[s] = (int) pi; R.jv_ppair_set(view, prec, s, g1[(size_t) p_g1[s]], prep[pi]); env.count("op:prepared_record_pointed");
     }
     void op_prod(const Op& op) {
         size_t a0 = (size_t) op.arg(0) % NR, na = (size_t) op.arg(1) % (NR + 1), p0 = (size_t) op.arg(2) % NR, np = (size_t) op.arg(3) % (NR + 1);
@@ -55,7 +55,7 @@ struct PairsRun {
         for (size_t i = 0; i < na; i++) if (a_g1[a0 + i] < 0) { na = i; break; }
         for (size_t i = 0; i < np; i++) if (p_pr[p0 + i] < 0) { np = i; break; }
         GTv out; env.lib_calls++;
-        R.jv_pairing_sum(view, out.b, na ? arec.p + a0 * R.sz(JV_SZ_APAIR) : nullptr, na, np ? prec.p + p0 * R.sz(JV_SZ_PPAIR) : nullptr, np);
+        R.jv_pairing_sum(view, out.b, na ? arec.p + a0 * R.jv_pair_size(view, 0) : nullptr, na, np ? prec.p + p0 * R.jv_pair_size(view, 1) : nullptr, np);
         GTv want = w.gtone(); int idents = 0; std::string shape;
         for (size_t i = 0; i < na; i++) { void* P = g1[(size_t) a_g1[a0 + i]]; void* Q = g2[(size_t) a_g2[a0 + i]]; bool id = is_inf1(P) || is_inf2(Q); idents += id; shape += id ? "a0" : "a"; want = w.gtmul(want, single(P, Q)); }
         for (size_t i = 0; i < np; i++) { void* P = g1[(size_t) p_g1[p0 + i]]; void* Q = prep_src[(size_t) p_pr[p0 + i]]; bool id = is_inf1(P) || is_inf2(Q); idents += id; shape += id ? "p0" : "p"; want = w.gtmul(want, single(P, Q)); }
